@@ -7,6 +7,7 @@ import time
 from typing import Dict, List
 
 import numpy
+from fractions import Fraction
 
 from .. import harness as H
 from .. import model as M
@@ -15,6 +16,9 @@ from ..common import check_invariants, snapshot_args, check_unmodified
 
 PROP = "C05"
 MOD = "nv.checks.c05"
+
+
+ATOL = 1e-25  # literal coefficients below the library's 1e-30 cut-off may legitimately stay in the remainder
 
 
 class IterationBound(Exception):
@@ -109,7 +113,7 @@ def body(ctx: H.BaseCtx):
     b_div = numpy.broadcast_to(mdiv, bshape)
     # 1. the division identity
     recomposed = M.amap(lambda qq, dd, rr: qq * dd + rr, mq, b_div, mr)
-    ctx.expect_model(recomposed, b_dvd, "identity q*divisor+r", rtol=rtol)
+    ctx.expect_model(recomposed, b_dvd, "identity q*divisor+r", rtol=rtol, atol=ATOL)
     n = len(M.flat_items(b_div))
     for i in range(n):
         di, qi, ri, ni = M.flat_items(b_div)[i], M.flat_items(mq)[i], M.flat_items(mr)[i], M.flat_items(b_dvd)[i]
@@ -117,15 +121,15 @@ def body(ctx: H.BaseCtx):
         if di.is_const_syntactic():
             c = di.coeff(())
             if bool(c != 0):
-                ctx.expect_model(M.mp_array([ri], ()), M.mp_array([M.MP()], ()), "remainder for constant divisor (element %d)" % i, rtol=rtol)
-                ctx.expect_model(M.mp_array([qi], ()), M.mp_array([ni / c], ()), "quotient for constant divisor (element %d)" % i, rtol=rtol)
+                ctx.expect_model(M.mp_array([ri], ()), M.mp_array([M.MP()], ()), "remainder for constant divisor (element %d)" % i, rtol=rtol, atol=ATOL)
+                ctx.expect_model(M.mp_array([qi], ()), M.mp_array([ni / c], ()), "quotient for constant divisor (element %d)" % i, rtol=rtol, atol=ATOL)
         # 3. exact multiple: remainder zero, quotient the cofactor (where the divisor is not the zero polynomial)
         if mcof is not None and not case.get("extra"):
             nonzero = any(bool(cf != 0) for cf in di.terms.values())
             if nonzero:
                 ci = M.flat_items(numpy.broadcast_to(mcof, bshape))[i]
-                ctx.expect_model(M.mp_array([ri], ()), M.mp_array([M.MP()], ()), "remainder of an exact multiple (element %d)" % i, rtol=rtol)
-                ctx.expect_model(M.mp_array([qi], ()), M.mp_array([ci], ()), "cofactor of an exact multiple (element %d)" % i, rtol=rtol)
+                ctx.expect_model(M.mp_array([ri], ()), M.mp_array([M.MP()], ()), "remainder of an exact multiple (element %d)" % i, rtol=rtol, atol=ATOL)
+                ctx.expect_model(M.mp_array([qi], ()), M.mp_array([ci], ()), "cofactor of an exact multiple (element %d)" % i, rtol=rtol, atol=ATOL)
         # 4. one indeterminate: deg r < deg divisor (divisor's degree as decided on this path)
         if len(names) == 1:
             nm = names[0]
@@ -137,6 +141,8 @@ def body(ctx: H.BaseCtx):
             if ddeg >= 0:
                 for mono, cf in ri.terms.items():
                     if dict(mono).get(nm, 0) >= ddeg:
+                        if cf.is_const() and abs(cf.const_value()) <= Fraction(ATOL):
+                            continue
                         z, wit = ctx.is_zero(cf, rtol=rtol, scale=None)
                         if not z:
                             ctx.fail("degree", "element %d: remainder has degree >= %d = deg(divisor)" % (i, ddeg), wit)
@@ -154,22 +160,22 @@ def body(ctx: H.BaseCtx):
             left = numpy.asarray(arr)
             spell_r = {"r/": left / divisor, "r%": left % divisor, "rdivmod": divmod(left, divisor)}
             lq, lr = numpoly.poly_divmod(left, divisor)
-            ctx.expect_model(spell_r["r/"], M.to_model(lq), "array / poly", rtol=rtol)
-            ctx.expect_model(spell_r["r%"], M.to_model(lr), "array % poly", rtol=rtol)
-            ctx.expect_model(spell_r["rdivmod"][0], M.to_model(lq), "divmod(array, poly)[0]", rtol=rtol)
-            ctx.expect_model(spell_r["rdivmod"][1], M.to_model(lr), "divmod(array, poly)[1]", rtol=rtol)
+            ctx.expect_model(spell_r["r/"], M.to_model(lq), "array / poly", rtol=rtol, atol=ATOL)
+            ctx.expect_model(spell_r["r%"], M.to_model(lr), "array % poly", rtol=rtol, atol=ATOL)
+            ctx.expect_model(spell_r["rdivmod"][0], M.to_model(lq), "divmod(array, poly)[0]", rtol=rtol, atol=ATOL)
+            ctx.expect_model(spell_r["rdivmod"][1], M.to_model(lr), "divmod(array, poly)[1]", rtol=rtol, atol=ATOL)
     except IterationBound as e:
         ctx.fail("nontermination", "operator spelling: %s" % e)
         return
     except Exception as e:
         ctx.unexpected_exception(e, "operator spelling")
         return
-    ctx.expect_model(spell["/"], mq, "poly / poly", rtol=rtol)
-    ctx.expect_model(spell["poly_divide"], mq, "poly_divide", rtol=rtol)
-    ctx.expect_model(spell["%"], mr, "poly % poly", rtol=rtol)
-    ctx.expect_model(spell["poly_remainder"], mr, "poly_remainder", rtol=rtol)
-    ctx.expect_model(spell["divmod"][0], mq, "divmod()[0]", rtol=rtol)
-    ctx.expect_model(spell["divmod"][1], mr, "divmod()[1]", rtol=rtol)
+    ctx.expect_model(spell["/"], mq, "poly / poly", rtol=rtol, atol=ATOL)
+    ctx.expect_model(spell["poly_divide"], mq, "poly_divide", rtol=rtol, atol=ATOL)
+    ctx.expect_model(spell["%"], mr, "poly % poly", rtol=rtol, atol=ATOL)
+    ctx.expect_model(spell["poly_remainder"], mr, "poly_remainder", rtol=rtol, atol=ATOL)
+    ctx.expect_model(spell["divmod"][0], mq, "divmod()[0]", rtol=rtol, atol=ATOL)
+    ctx.expect_model(spell["divmod"][1], mr, "divmod()[1]", rtol=rtol, atol=ATOL)
     check_invariants(ctx, q, "quotient")
     check_invariants(ctx, r, "remainder")
     check_unmodified(ctx, ops, snap)
@@ -249,6 +255,12 @@ def gen_cases(tier: str, seed: int) -> List[Dict]:
         dividend=spec("n", ("q0",), [[0], [1], [2]], (), 2))
     add("bcast", ("q0",), spec("d", ("q0",), [[0], [1]], (1,), 2), dividend=spec("n", ("q0",), [[0], [2]], (2,), 2))
     add("zero-dividend-entry", ("q0",), spec("d", ("q0",), [[0], [1]], (2,), 2), dividend=S.make_poly_spec("n", ("q0",), [[1], [2]], (2,), rng, 2, zero_prob=0.5, literal_prob=0.0, mode="raw"))
+    # one element with a coefficient below the 1e-30 cut-off next to elements of ordinary size (literal, so no assumption is needed)
+    tiny = 3e-31
+    add("arr-tiny", ("q0",), spec("d", ("q0",), [[0], [1]], (), 1, lit=0.5),
+        dividend={"kind": "poly", "names": ["q0"], "exps": [[0], [2], [3]], "shape": [2], "slots": [[0, "n0"], [tiny, 0], [0, "n1"]], "mode": "raw", "dtype": "float64"})
+    add("arr-tiny-const", ("q0",), {"kind": "poly", "names": ["q0"], "exps": [[0]], "shape": [], "slots": [[2]], "mode": "raw"},
+        dividend={"kind": "poly", "names": ["q0"], "exps": [[0], [1]], "shape": [2], "slots": [[0, "n0"], [1e-31, "n1"]], "mode": "raw", "dtype": "float64"})
     # reflected operators: array on the left
     add("reflected", ("q0",), spec("d", ("q0",), [[0], [1]], (2,), 2), dividend=spec("n", ("q0",), [[0], [2]], (2,), 2), reflected=[3, 5])
     add("reflected0d", ("q0",), spec("d", ("q0",), [[0]], (), 1, lit=0.0), dividend=spec("n", ("q0",), [[0], [1]], (), 2), reflected=7)
